@@ -61,6 +61,17 @@ func genConfig(t *rapid.T, o cfgGenOpts) Config {
 	return c
 }
 
+var chunkBoundaryBuckets = []uint32{4095, 4096, 4097, 8191, 8192, 8193, 12287, 12288, 12290}
+
+// setBucket rewrites the leading bytes of a digest so that it falls into the
+// given bucket (modulo the table size); the remaining high bits are kept.
+func setBucket(d []byte, bits uint8, bucket uint32) {
+	mask := uint32(1)<<bits - 1
+	v := uint32(d[0]) | uint32(d[1])<<8 | uint32(d[2])<<16 | uint32(d[3])<<24
+	v = v&^mask | bucket&mask
+	d[0], d[1], d[2], d[3] = byte(v), byte(v>>8), byte(v>>16), byte(v>>24)
+}
+
 // genKeys builds a pool of distinct digests, none a proper prefix of another,
 // concentrated in few buckets and sharing long prefixes by construction.
 func genKeys(t *rapid.T, cfg Config, minKeys, maxKeys int) []KeySpec {
@@ -68,6 +79,12 @@ func genKeys(t *rapid.T, cfg Config, minKeys, maxKeys int) []KeySpec {
 	coreLen := []int{4, 5, 6, 8, 12, 20, 32, 40}[weighted(t, "corelen", []int{2, 6, 8, 8, 4, 2, 6, 1})]
 	alpha := []int{2, 3, 256}[weighted(t, "alphabet", []int{5, 3, 2})]
 	base := rapid.SliceOfN(rapid.Byte(), 4, 4).Draw(t, "base")
+	if cfg.Bits >= 13 && weighted(t, "chunkBoundary", []int{2, 1}) == 1 {
+		// Bucket numbers next to a multiple of 4096: scans of the bucket table
+		// work in chunks, and the first/last bucket of a chunk is a boundary
+		// that uniformly drawn keys practically never hit.
+		setBucket(base, cfg.Bits, chunkBoundaryBuckets[rapid.IntRange(0, len(chunkBoundaryBuckets)-1).Draw(t, "boundaryBucket")])
+	}
 	nGroups := 1 + weighted(t, "groups", []int{5, 4, 2})
 	prefixes := make([][]byte, nGroups)
 	prefixes[0] = base
@@ -227,9 +244,23 @@ func genIndexGCFocused(t *rapid.T, withPrimaryGC bool) SeqCase {
 	c.Cfg.PrimSize = []uint32{64, 256, 1024, 0}[rapid.IntRange(0, 3).Draw(t, "primsize")]
 	nb := rapid.IntRange(3, 7).Draw(t, "buckets")
 	base := rapid.SliceOfN(rapid.Byte(), 5, 5).Draw(t, "base")
+	// Larger tables, with the first bucket at a chunk boundary of the table.
+	boundary := -1
+	if bb := weighted(t, "bigtable", []int{6, 1, 1}); bb > 0 {
+		c.Cfg.Bits = []uint8{8, 13, 16}[bb]
+		boundary = rapid.IntRange(0, len(chunkBoundaryBuckets)-1).Draw(t, "boundaryBucket")
+	}
+	seen := map[string]bool{}
 	for b := 0; b < nb; b++ {
 		d := append([]byte{}, base...)
 		d[0] = byte(int(base[0]) + b*17)
+		if b == 0 && boundary >= 0 {
+			setBucket(d, c.Cfg.Bits, chunkBoundaryBuckets[boundary])
+		}
+		if seen[string(d[:4])] {
+			continue
+		}
+		seen[string(d[:4])] = true
 		c.Keys = append(c.Keys, KeySpec{Digest: d, Code: 0x00, Codec: cid.Raw})
 		if weighted(t, "second", []int{2, 1}) == 1 {
 			d2 := append([]byte{}, d...)
